@@ -5,6 +5,7 @@ Skeleton (DESIGN §2.2): build → proof obligations → corpus → corresponden
 Exit 0 = property held on everything explored; exit 1 + `VIOLATION property=<id> replay=<path>` otherwise.
 """
 import argparse, importlib, json, os, sys, time, traceback
+import atexit, shutil
 
 sys.path.insert(0, os.path.dirname(os.path.abspath(__file__)))
 from rbpv import common as C, build as B
@@ -99,6 +100,15 @@ def main():
             violations.append(("hook build failed: the correspondence cannot be run", path, True))
             raise StopIteration
         n_obl, n_dis, problems, thms = obligations(mod, ctx)
+        # a private copy of the model driver: another check running at the same time may relink the shared one
+        try:
+            with C.Lock("lake"):
+                private = os.path.join(C.CACHE, "rbp-model-%d" % os.getpid())
+                shutil.copy2(C.MODEL, private)
+            C.MODEL = private
+            atexit.register(lambda: os.path.exists(private) and os.remove(private))
+        except OSError as e:
+            ctx.notes.append("private copy of the model driver not made: %r" % e)
         # change-directed effort: where /repo's source differs from the tree the model was last reconciled with, the quick tier
         # multiplies its case budget for the properties anchored in the files that moved (never a violation by itself)
         factor, changed = B.effort_factor(prop)
